@@ -57,11 +57,16 @@ def forceSpace (lang : Nat) (dig permit : Bool) (a : List CP) (aAC : Bool) (b : 
 def opensCommentPair (a b : List CP) : Bool :=
   a.getLast? == some 47 && (b.head? == some 42 || b.head? == some 47)
 
-/-- `PCF_FORCE_SPACE` after the safety check of the current code: the comment-opener test comes first, inside the same outer
-    condition as the rest (`forceSpace` is the check as it was before that fix) -/
-def forceSpace2 (lang : Nat) (dig permit : Bool) (a : List CP) (aAC : Bool) (b : List CP) (bAC : Bool) : Bool :=
+/-- a number chunk (CT_NUMBER / CT_NUMBER_FP) that ends in an exponent letter, followed by a sign: `0x1e` `+` -/
+def extendsNumber (aNum : Bool) (a b : List CP) : Bool :=
+  aNum && (a.getLast? == some 101 || a.getLast? == some 69 || a.getLast? == some 112 || a.getLast? == some 80)
+       && (b.head? == some 43 || b.head? == some 45)
+
+/-- `PCF_FORCE_SPACE` after the safety check of the current code: the comment-opener test and the number-sign test come first, inside
+    the same outer condition as the rest (`forceSpace` is the check as it was before those fixes); `aNum` = `pc` is a number chunk -/
+def forceSpace2 (lang : Nat) (dig permit : Bool) (a : List CP) (aAC : Bool) (b : List CP) (bAC : Bool) (aNum : Bool := false) : Bool :=
   (a.length > 0 && a != [91, 93] && a != [123, 123] && a != [125, 125] && a != [40, 41] && !(a.take 2 == [64, 34])
-     && opensCommentPair a b)
+     && (opensCommentPair a b || extendsNumber aNum a b))
   || forceSpace lang dig permit a aAC b bAC
 
 /-- the length of the token the specification lexer finds at the head of `s` -/
